@@ -658,6 +658,26 @@ func (e *Engine) trCall(env *SpecEnv, n SCall) Val {
 			cur = "(pathJoin " + cur + " " + arg(k).T + ")"
 		}
 		return Val{T: cur, S: "String", GoT: tString}
+	case "visited":
+		// visited(k): key k was already yielded by the map iteration of the current loop
+		if env.loop == nil {
+			e.specFail(env, "visited() outside a loop invariant")
+		}
+		for _, ins := range env.loop.header.Instrs {
+			if nx, ok := ins.(*ssa.Next); ok {
+				if c, ok := env.st.Cells[nx.Iter]; ok {
+					return boolVal(sel(c.T, arg(0).T))
+				}
+			}
+		}
+		e.specFail(env, "visited(): the current loop is not a range over a map")
+	case "decoded":
+		// decoded(reader, T): the value a decoder reading from reader stores into a target of type T
+		t, err := e.w.resolveType(env.pkg, env.pos, specString(n.Args[1]))
+		if err != nil {
+			e.specFail(env, err.Error())
+		}
+		return e.decodedTerm(arg(0).T, t)
 	case "lastCopied":
 		// number of bytes the most recent io.Copy call reported
 		return intVal(e.heapIn(env.st, "GH_io.lastCopied", "Int"))
